@@ -17,6 +17,23 @@ type Case struct {
 	Desc       map[string]interface{} `json:"desc"`       // human-readable input and observation
 }
 
+// Prop is what a property package registers (from its init function).
+type Prop struct {
+	// Generate runs n generated cases of the given tier on the implementation.
+	Generate func(r Rand, tier string, n int, emit func(*Case))
+	// Replay re-runs one stored input (the "input" member of a case's desc).
+	Replay func(raw json.RawMessage) (*Case, error)
+}
+
+// Rand is the generator interface handed to Generate (implemented by rng.R).
+type Rand interface {
+	U64() uint64
+}
+
+var Registry = map[string]Prop{}
+
+func Register(name string, p Prop) { Registry[name] = p }
+
 type Writer struct {
 	f *os.File
 	w *bufio.Writer
